@@ -148,7 +148,7 @@ Proof.
         assert (Hj1r : j1 <> root) by (intros ->; contradiction).
         pose proof (step_child o tol root A1 ps1 q (row0 p :: junk0) (length q) j1 0%nat rest lp1 k2 (rem ++ e0) f1 c1
                       [cidx a1; cidx b1] l1 i p st par [cidx u0; Some j1] false 1%nat s1 k3 true skip1
-                      Hps1 eq_refl Hcj1 Hci1 Hfl1 (or_intror eq_refl) Hj1r Hst Ev1) as Hstep.
+                      Hps1 eq_refl Hcj1 Hci1 Hfl1 (or_intror eq_refl) Hj1r Hst (num_nodes_ok A1 (Some i) j1 l1 f1 s1' a1 b1 W1a N1) Ev1) as Hstep.
         cbn [Nat.eqb lrow] in Hstep.
         set (cf1 := ae_cell f1 s1 (Some i) [cidx a1; cidx b1] l1) in *.
         set (A2 := aset A1 j1 (Some cf1)) in *.
